@@ -571,7 +571,7 @@ def compare(ctx, c, route, res, mtext, with_rest):
 
 
 def run(ctx):
-    n = 2600 if ctx.quick() else 60000
+    n = 1800 if ctx.quick() else 20000
     cases = gen_cases(ctx, n)
     prepared, exprs, index = [], [], {}
     skipped = 0
